@@ -377,6 +377,13 @@ PROPS["C06"]["coq_props"] = ["C06", "C14b"]
 PROPS["C06"]["assumptions"] = PROPS["C06"]["assumptions"] + [
     "the eviction gate (isEvictionInProgress + evictionMutex) is PROVED never to be left closed, for any number of threads and any schedule, on a small-step model of doEviction "
     "(Conc/EvictionGate.v, Props/C14b.v); that the Go code refines this model is validated by the stress extra, not proved"]
+# the same engine restricted to the phases of the property's own cache: a concurrency-only defect of that cache is then reported by
+# the property's own check too, not only by C14 (validation beyond the sequential quantifier of these properties)
+for _p, _what in (("C12", "immunity-cache, cross-tx-cache and immunity-clear"), ("C13", "immunity-cache, cross-tx-cache and immunity-clear"),
+                  ("C15", "lru and capacity-lru"), ("C20", "fifo-sharded"), ("C05", "txcache add-only, mixed and clear")):
+    PROPS[_p]["extras"] = PROPS[_p].get("extras", []) + [{"component": "stress", "race": True, "timeout": 600}]
+    PROPS[_p]["race"] = True
+    PROPS[_p]["rule"] += " extra (race-detector binary, beyond the sequential quantifier): 12 rounds of the %s stress phases of the C14 engine with their monitors." % _what
 PROPS["C16"]["coq_props"] = ["C16", "C16b"]
 PROPS["C16"]["assumptions"] = [a for a in PROPS["C16"]["assumptions"] if not a.startswith("LRU / SizeLRU / FIFOSharded satisfy cacher_laws")] + [
     "cacher_laws are PROVED for the models of the sized LRU, the plain LRU, the lruCache wrapper and the FIFO sharded cache (Props/C16b.v); those models are tied to the Go caches by the C15/C20 checks"]
